@@ -1,6 +1,8 @@
 package main
 
 import (
+	"context"
+	"time"
 	"bytes"
 	"encoding/json"
 	"fmt"
@@ -10,6 +12,7 @@ import (
 	"strings"
 	"syscall"
 
+	"verifharness/evid"
 	"verifharness/gen"
 	"verifharness/gram"
 	"verifharness/ygo"
@@ -287,8 +290,9 @@ func c19CLI(w *Worker, c *c19Case, expectFail bool, bad func(kind, msg string)) 
 	flags := map[string][]string{gen.Go: {"go"}, gen.GoU: {"-u", "go"}, gen.GoO: {"-o", "go"}, gen.GoOU: {"-o", "-u", "go"}, gen.TS: {"typescript"}}
 	args := append([]string{"generate"}, flags[c.Variant]...)
 	args = append(args, in, outp)
-	cmd := exec.Command(nativeBin, args...)
-	cmd.Dir = dir
+	ctx, cancel := context.WithTimeout(context.Background(), 120*time.Second)
+	defer cancel()
+	cmd := evid.Guarded(ctx, 60, dir, nil, nativeBin, args...)
 	err = cmd.Run()
 	w.Count("cli_runs", 1)
 	after, _ := os.ReadFile(outp)
